@@ -17,6 +17,9 @@ use vlib::{ensure, fail};
 pub struct SrcCase {
     pub model: FileModel,
     pub chunks: Vec<usize>,
+    /// index into vlib::io::FAULT_KINDS: the io::ErrorKind the injected failures carry
+    #[serde(default)]
+    pub kind: u8,
 }
 
 pub struct Sources;
@@ -32,7 +35,7 @@ impl Prop for Sources {
          wholly inside the retained bytes is returned equal to the model, then the cut record is an Err(IoError), t=L ends cleanly; EVERY \
          truncation of the .shx with the full .shp: with_shx fails exactly when t < 100+8n, never panics. (b) a source failing its k-th \
          read/seek for EVERY k a full traversal (open, iterate, seek(k)+read for every k incl. past the end, every read_nth) issues, on .shp and on .shx: the API call in progress \
-         returns the marked error. (c) sources returning at most c bytes per read (c = 1,2,3,7, one generated sequence) give identical \
+         returns the marked error (the injected error carries one of ten io::ErrorKind values; Interrupted is excluded because read_exact retries it by contract). (c) sources returning at most c bytes per read (c = 1,2,3,7, one generated sequence) give identical \
          shapes. Inner evaluations = truncations + injected runs. Non-trivial: a multi-part record (cuts fall strictly inside record bodies)"
     }
     fn check(c: &SrcCase, ctx: &mut Ctx) -> Result<(), Fail> {
@@ -64,7 +67,7 @@ impl Prop for SourcesGapped {
         traverse("clean traversal (gapped file)", clean_shp.handle(), Some(clean_shx.handle()), m, &never)?;
         for k in 0..clean_shp.ops() {
             inner += 1;
-            let s = Src::faulting(enc.shp.clone(), k);
+            let s = Src::faulting_kind(enc.shp.clone(), k, c.kind);
             let h = s.handle();
             let what = format!("gapped .shp source failing its op #{}", k);
             match guard(|| traverse(&what, s, Some(Src::new(enc.shx.clone())), m, &|| h.faulted())) {
@@ -91,8 +94,8 @@ impl RandomProp for SourcesGapped {
         150
     }
     fn strategy(_env: &Env) -> BoxedStrategy<SrcCase> {
-        (file_model(6, 3, 5), proptest::collection::vec(1usize..12, 1..6), proptest::collection::vec((1usize..=8, any::<u8>()), 8))
-            .prop_filter_map("at least one record", |(mut model, chunks, fl)| {
+        (file_model(6, 3, 5), proptest::collection::vec(1usize..12, 1..6), proptest::collection::vec((1usize..=8, any::<u8>()), 8), 0u8..vlib::io::FAULT_KINDS.len() as u8)
+            .prop_filter_map("at least one record", |(mut model, chunks, fl, kind)| {
                 if model.recs.is_empty() {
                     return None;
                 }
@@ -100,7 +103,7 @@ impl RandomProp for SourcesGapped {
                 let n = model.recs.len();
                 model.order = (0..n).collect();
                 model.fillers = (0..=n).map(|k| vec![fl[k % fl.len()].1; fl[k % fl.len()].0 * 2]).collect();
-                Some(SrcCase { model, chunks })
+                Some(SrcCase { model, chunks, kind })
             })
             .boxed()
     }
@@ -122,13 +125,13 @@ impl RandomProp for Sources {
                 proptest::collection::vec(g, 1..=2).prop_map(move |geoms| FileModel::simple(ty, geoms))
             }),
         ];
-        (model, proptest::collection::vec(1usize..12, 1..6))
-            .prop_filter_map("at least one record", |(mut model, chunks)| {
+        (model, proptest::collection::vec(1usize..12, 1..6), 0u8..vlib::io::FAULT_KINDS.len() as u8)
+            .prop_filter_map("at least one record", |(mut model, chunks, kind)| {
                 if model.recs.is_empty() {
                     return None;
                 }
                 model.trailing.clear();
-                Some(SrcCase { model, chunks })
+                Some(SrcCase { model, chunks, kind })
             })
             .boxed()
     }
@@ -321,7 +324,7 @@ fn check_sources(c: &SrcCase, ctx: &mut Ctx) -> Result<(), Fail> {
     let (n_shp_ops, n_shx_ops) = (clean_shp.ops(), clean_shx.ops());
     for k in 0..n_shp_ops {
         inner += 1;
-        let s = Src::faulting(enc.shp.clone(), k);
+        let s = Src::faulting_kind(enc.shp.clone(), k, c.kind);
         let h = s.handle();
         let what = format!(".shp source failing its op #{} of {}", k, n_shp_ops);
         let res = guard(|| traverse(&what, s, Some(Src::new(enc.shx.clone())), m, &|| h.faulted()));
@@ -332,7 +335,7 @@ fn check_sources(c: &SrcCase, ctx: &mut Ctx) -> Result<(), Fail> {
     }
     for k in 0..n_shx_ops {
         inner += 1;
-        let x = Src::faulting(enc.shx.clone(), k);
+        let x = Src::faulting_kind(enc.shx.clone(), k, c.kind);
         let h = x.handle();
         let what = format!(".shx source failing its op #{} of {}", k, n_shx_ops);
         let res = guard(|| traverse(&what, Src::new(enc.shp.clone()), Some(x), m, &|| h.faulted()));
@@ -346,7 +349,7 @@ fn check_sources(c: &SrcCase, ctx: &mut Ctx) -> Result<(), Fail> {
     traverse("clean traversal, no index", clean.handle(), None, m, &never)?;
     for k in 0..clean.ops() {
         inner += 1;
-        let s = Src::faulting(enc.shp.clone(), k);
+        let s = Src::faulting_kind(enc.shp.clone(), k, c.kind);
         let h = s.handle();
         let what = format!(".shp source (no index) failing its op #{}", k);
         let res = guard(|| traverse(&what, s, None, m, &|| h.faulted()));
